@@ -138,6 +138,12 @@ def restore(rc):
         f.prop, f.rule = "C02", "C02.restore"
 
 
+
+@rule("C02.defuse", "anchored files: every parameter is read, no value is computed and dropped (generic def-use detectors, triaged hit list)", floor=2)
+def defuse(rc):
+    from . import shared as _sh
+    _sh.defuse_rule(rc, _sh.anchor_files("C02"))
+
 MUTANTS = [
     dict(kind="break", name="jt-bookkeeping-by-value", file=MN, expect="C02.multiplicity",
          old="        is_used = [False] * len(self.factors)\n", new="        is_used = {factor: False for factor in self.factors}\n"),
